@@ -325,6 +325,7 @@ def oracle(ctx, volume=1):
     single_setting_clauses(ctx, g, volume)
     global_stream_clause(ctx, g, volume)
     same_objects_clause(ctx, g, volume)
+    unknown_types_clause(ctx, g, volume)
     noise_clauses(ctx, g, volume)
     seed_clause(ctx, g, volume)
     ctx.rule = ("one case = one real simulation run compared with its repetition / another worker configuration / its "
@@ -556,6 +557,55 @@ def global_stream_run(kind, n_rep, num_data, seed, via):
         r = sim.generate_empi_dists_and_calc_estimate(qt, true, num_data, LinearEstimator(), iteration=n_rep,
                                                       seed_or_generator=None)
     return fingerprint_single(r)
+
+
+UNKNOWNS = {"state": (("state", "a"), "povms"), "povm": (("povm", "z"), "states"), "gate": (("gate", "hadamard"), "both"),
+            "mprocess": (("mprocess", "z-type1"), "both")}
+
+
+def unknown_types_run(kind, n_rep, num_data, seed_arg):
+    c_sys = csys1()
+    povms = [generate_qoperation("povm", nm, c_sys) for nm in "xyz"]
+    states = [generate_qoperation("state", nm, c_sys) for nm in ("x0", "y0", "z0", "z1")]
+    (mode, name), which = UNKNOWNS[kind]
+    true = generate_qoperation(mode, name, c_sys)
+    testers = {"povms": povms, "states": states, "both": states + povms}[which]
+    st = StandardQTomographySimulationSetting(
+        name="u", true_object=true, tester_objects=testers, estimator=LinearEstimator(), seed_data=11, n_rep=n_rep,
+        num_data=num_data, schedules="all", eps_proj_physical=1e-5, eps_truncate_imaginary_part=1e-5)
+    qt = sim.generate_qtomography(st, para=True, init_with_seed=False)
+    arg = np.random.Generator(np.random.MT19937(seed_arg[1])) if seed_arg[0] == "generator" else seed_arg[1]
+    with quiet():
+        r = sim.execute_simulation(qt, st, seed_or_generator=arg)
+    return fingerprint_single(r)
+
+
+def unknown_types_clause(ctx, g, volume):
+    """the single-setting entry point with each of the four object types as the unknown: reproducible, repetitions are
+    different draws (integer seed and Generator object)"""
+    for t in range((1 if ctx.quick else 4) * volume):
+        for kind in UNKNOWNS:
+            for how in ("int", "generator"):
+                n_rep, num_data = int(g.integers(2, 4)), [40, 150]
+                seed = int(g.integers(1, 10 ** 6))
+                rep = {"kind": "unknown-type", "unknown": kind, "how": how, "seed": seed, "n_rep": n_rep, "num_data": num_data}
+                try:
+                    a = unknown_types_run(kind, n_rep, num_data, (how, seed))
+                    b = unknown_types_run(kind, n_rep, num_data, (how, seed))
+                except Exception as e:  # noqa
+                    ctx.violate(f"C15/single-setting/unknown={kind}/raises/{type(e).__name__}",
+                                f"execute_simulation with a {kind} as the unknown ({how} seed): {type(e).__name__}: {e}", rep)
+                    continue
+                ctx.case(("unknown-type", kind, how, seed), sample={"clause": "single-setting unknown type", "unknown": kind, "seed": how})
+                ctx.count(f"single-setting unknown={kind}")
+                d = diff_single(a, b)
+                if d:
+                    ctx.violate(f"C15/single-setting/unknown={kind}/{how}/rerun/{d}", f"two runs with the same seed differ in {d}", rep)
+                dup = reps_identical(a["empi"])
+                if dup:
+                    ctx.violate(f"C15/single-setting/unknown={kind}/{how}/repetitions-identical",
+                                f"{kind} unknown, n_rep={n_rep}, {how} seed {seed}: repetitions {dup} have identical empirical "
+                                f"distributions (and estimates)", rep)
 
 
 def same_objects_clause(ctx, g, volume):
@@ -908,6 +958,17 @@ def replay(ctx, data):
             for x, y in zip(base, other):
                 print("   case", x["name"], "serial estimates", [v.tolist() for v in x["est"][-1]], "| parallel", [v.tolist() for v in y["est"][-1]])
             return 1 if (want in d if want else d) else 0
+    if r["kind"] == "unknown-type":
+        try:
+            fp = unknown_types_run(r["unknown"], r["n_rep"], r["num_data"], (r["how"], r["seed"]))
+        except Exception as e:  # noqa
+            print(f"  execute_simulation raised {type(e).__name__}: {e}")
+            return 1 if "/raises/" in sig else 0
+        for i, seq in enumerate(fp["empi"]):
+            print(f"  repetition {i}:", [p.tolist() for _, p in seq[0]][:3])
+        dup = reps_identical(fp["empi"])
+        print("  identical repetitions:", dup)
+        return 1 if dup else 0
     if r["kind"] == "same-objects":
         a, b = same_objects_run(r["seed"], r["n_rep"], r["num_data"], r["via_setting"])
         d = diff_single(a, b)
